@@ -6,7 +6,8 @@ From Coq.Strings Require Import Byte.
 From Verif Require Import Lib.Bytes Model.Wire Model.TxCodec Model.Sighash Proofs.Sighash Proofs.SighashEq
   Proofs.SighashCommit Crypto.Sha256 Crypto.Ripemd160 Crypto.HashLemmas.
 From Verif Require Import Model.VerifyInput Model.SignPlace Model.SignSeq Proofs.VerifyInput Proofs.SignPlace
-  Proofs.SignPlaceSeq Proofs.SignPlaceTx Proofs.TamperDigest Proofs.TamperDigestWitness Proofs.SignPlaceHashType.
+  Proofs.SignPlaceSeq Proofs.SignPlaceTx Proofs.TamperDigest Proofs.TamperDigestWitness Proofs.SignPlaceHashType
+  Gen.GenC02 Proofs.VerifyThreshold Proofs.VerifyObject.
 Import ListNotations.
 
 (* --- soundness: True  =>  m signatures valid for m distinct key positions, order preserved
@@ -499,6 +500,177 @@ Proof.
   - vm_compute. repeat split.
 Qed.
 
+(* ====================================================================================================
+   the threshold on the PARSE path (Proofs/VerifyThreshold.v).  Input.update_scripts reads sigs_required from the
+   first bytes of the redeem / witness script; its statements are translated from the working tree on every run
+   (Gen/GenC02.v gen_threshold) and the machine runs that translation (lib_script_threshold).
+   ==================================================================================================== *)
+
+(* the translation is one of the two readings written out in Model/SignPlace.v: the code as it is (n_tag - 80) or the
+   code after the proposed repair C02-7 (a pushed number is read as such).  A range test that leaves out an opcode
+   (seeded change C02-r: 80 < n_tag < 96 excludes OP_16) is neither *)
+Theorem tree_threshold_reader_known :
+  gen_threshold_translated = true /\
+  ((forall b0 b1 len cur, gen_threshold b0 b1 len cur = lib_thr_v0 b0 b1 len cur) \/
+   (forall b0 b1 len cur, gen_threshold b0 b1 len cur = lib_thr_v1 b0 b1 len cur)).
+Proof. exact (conj tree_threshold_translated_thm tree_threshold_reader_known_thm). Qed.
+
+(* every multisig script m-of-n with the threshold encoded as an opcode (1 <= m <= 16; any keys, any n, whatever
+   sigs_required was before): the parsed threshold is m *)
+Theorem parsed_threshold_is_script_threshold : forall m keys cur,
+  (1 <= m <= 16)%Z -> lib_script_threshold (spec_ms_script m keys) cur = m.
+Proof. exact parsed_threshold_is_script_threshold_thm. Qed.
+
+(* ... whatever follows the first item *)
+Theorem parsed_threshold_reads_first_item : forall m rest cur,
+  (1 <= m <= 16)%Z -> lib_script_threshold (spec_num_item m ++ rest) cur = m.
+Proof. exact parsed_threshold_op_thm. Qed.
+
+(* thresholds above 16 have no opcode: consensus pushes the number (01 m).  The repaired reading gives m for every
+   1 <= m <= 127; the reading of the code as it is gives -79, and Input.verify's loop `while sigs_verified < -79`
+   accepts any non-empty signature list (finding threshold_above_16_pushed) *)
+Theorem parsed_threshold_repaired : forall m keys cur,
+  (1 <= m <= 127)%Z -> script_threshold lib_thr_v1 (spec_ms_script m keys) cur = m.
+Proof. exact parsed_threshold_repaired_thm. Qed.
+
+Theorem parsed_threshold_unrepaired_above_16 : forall m keys cur,
+  (17 <= m)%Z -> script_threshold lib_thr_v0 (spec_ms_script m keys) cur = (-79)%Z.
+Proof. exact parsed_threshold_unrepaired_above_16_thm. Qed.
+
+Example threshold_above_16_pushed_refuted :
+  let ks := map thr_key_bytes (thr_keys 20) in
+  script_threshold lib_thr_v0 (spec_ms_script 17 ks) 1 = (-79)%Z /\
+  lib_verify_input thr_sv false (thr_keys 20) [(-1)%Z] (Z.to_nat (-79)) = true /\
+  script_threshold lib_thr_v1 (spec_ms_script 17 ks) 1 = 17%Z /\
+  lib_verify_input thr_sv false (thr_keys 20) [(-1)%Z] (Z.to_nat 17) = false.
+Proof. vm_compute. repeat split. Qed.
+
+(* the library's own serializer writes number + 80 as one byte whatever the number: the consensus encoding up to 16 ... *)
+Theorem lib_ms_script_is_spec : forall m keys,
+  (m <= 16)%Z -> length keys <= 16 -> lib_ms_script m keys = spec_ms_script m keys.
+Proof. exact lib_ms_script_is_spec_thm. Qed.
+
+(* ... above 16 the bytes 0x61.. (OP_NOP, OP_VER, OP_IF, OP_NOTIF) — not a number for anybody else (not generated by
+   the correspondence: such an output cannot be spent under consensus rules) *)
+Example lib_ms_script_above_16_refuted :
+  lib_num_item 17 = [zb 97] /\ spec_num_item 17 = [zb 1; zb 17] /\ lib_num_item 20 = [zb 100] /\
+  lib_ms_script 17 [] <> spec_ms_script 17 [].
+Proof. split; [reflexivity|]. split; [reflexivity|]. split; [reflexivity|]. vm_compute. discriminate. Qed.
+
+(* the machine of the correspondence (request thr): both parse paths learn m ... *)
+Theorem parsed_threshold_machine : forall witness m n,
+  (1 <= m <= 16)%Z -> lib_parsed_threshold witness m n = m.
+Proof. exact lib_parsed_threshold_thm. Qed.
+
+(* ... so a parsed input whose serialized signature list (any selection, order, repetition, foreign or corrupted
+   signatures) holds fewer than m signatures valid for some listed key does not verify, and m signatures in key order do *)
+Theorem parsed_input_needs_m_signatures : forall witness m n sel,
+  (1 <= m <= 16)%Z ->
+  length (filter (sig_useful thr_sv (thr_keys n)) sel) < Z.to_nat m ->
+  snd (fst (lib_thr_run witness m n sel)) = false.
+Proof. exact parsed_input_needs_m_signatures_thm. Qed.
+
+Theorem parsed_input_complete : forall witness m n sel,
+  (1 <= m <= 16)%Z -> signed_in_order thr_sv (thr_keys n) sel -> Z.to_nat m <= length sel ->
+  snd (fst (lib_thr_run witness m n sel)) = true.
+Proof. exact parsed_input_complete_thm. Qed.
+
+(* non-vacuity at the boundary the seeded change moved: 16-of-16 parsed from the witness; all 16 signatures verify,
+   15 of them (one stripped) do not, one signature does not; 15-of-16 with 15 does *)
+Example parsed_threshold_instance :
+  let all := thr_keys 16 in
+  lib_thr_run true 16 16 all = (16%Z, true, map (fun s => map (thr_sv s) all) all) /\
+  snd (fst (lib_thr_run true 16 16 (removelast all))) = false /\
+  snd (fst (lib_thr_run true 16 16 [0%Z])) = false /\
+  snd (fst (lib_thr_run true 15 16 (removelast all))) = true /\
+  snd (fst (lib_thr_run false 15 15 (thr_keys 15))) = true /\
+  snd (fst (lib_thr_run false 15 15 (thr_keys 14))) = false.
+Proof. vm_compute. repeat split. Qed.
+
+(* ====================================================================================================
+   one attribute written by hand (Proofs/VerifyObject.v): verify() of the object against the bytes it would broadcast
+   ==================================================================================================== *)
+
+(* the digest functions take every committed field from the attribute raw() serializes (the amount: Input.value) *)
+Theorem digest_reads_serialised_copy : forall f, lib_digest_source f = lib_raw_source f.
+Proof. exact digest_source_is_raw_source_thm. Qed.
+
+(* tie to the working tree: the BIP143 digest reads no attribute raw() does not read; every field's source attribute
+   is read by both; version_int / output_n_int are read by none of raw, signature_segwit, signature, signature_hash,
+   Transaction.verify, Input.verify; verification reads nothing but signatures, keys, threshold, hash type and kind *)
+Theorem tree_digest_reads_serialised_attributes :
+  subset_s gen_attrs_signature_segwit_reads gen_attrs_raw_reads = true /\
+  (forall f, mem_s (attr_name (lib_raw_source f)) gen_attrs_raw_reads = true /\
+             mem_s (attr_name (lib_digest_source f)) gen_attrs_signature_segwit_reads = true).
+Proof. exact (conj tree_digest_reads_within_raw_thm tree_sources_are_read_thm). Qed.
+
+Theorem tree_shadow_copies_unread :
+  forallb (fun a => negb (mem_s a (gen_attrs_raw_reads ++ gen_attrs_signature_segwit_reads ++ gen_attrs_signature_reads
+                                   ++ gen_attrs_signature_hash_reads ++ gen_attrs_verify_reads
+                                   ++ gen_attrs_input_verify_reads)))
+          shadow_names = true.
+Proof. exact tree_shadow_copies_unread_thm. Qed.
+
+Theorem tree_verify_reads_frozen :
+  subset_s gen_attrs_verify_reads frozen_verify_reads = true /\
+  subset_s gen_attrs_input_verify_reads frozen_input_verify_reads = true /\
+  subset_s gen_attrs_signature_reads frozen_signature_reads = true /\
+  subset_s gen_attrs_signature_hash_reads [] = true /\
+  subset_s gen_attrs_signature_segwit_writes frozen_segwit_writes = true /\
+  subset_s gen_attrs_raw_writes frozen_raw_writes = true /\
+  subset_s gen_attrs_verify_writes frozen_verify_writes = true /\
+  subset_s gen_attrs_input_verify_writes frozen_input_verify_writes = true.
+Proof. exact tree_verify_reads_frozen_thm. Qed.
+
+(* hence: a write of any attribute other than verification context changes the library's digest of input i exactly
+   when it changes the consensus digest of the bytes raw() returns ... *)
+Theorem write_seen_iff_serialised : forall kinds nout ins a es es',
+  is_ctx_attr a = false ->
+  lib_write_epochs lib_digest_source kinds nout ins a es es' = raw_write_epochs nout ins a es es'.
+Proof. exact write_epochs_agree_thm. Qed.
+
+(* ... and the second copies and all other attributes change neither *)
+Theorem shadow_write_unseen : forall kinds nout ins a es es',
+  shadow_attr a = true ->
+  lib_write_epochs lib_digest_source kinds nout ins a es es' = es /\ raw_write_epochs nout ins a es es' = es.
+Proof. exact shadow_write_unseen_thm. Qed.
+
+(* Input.verify on the object's signature list is CHECKMULTISIG on what the object serializes of it *)
+Theorem input_verdict_is_serialised_verdict : forall (B : Type) (sv : B -> Z -> bool) keys (sigs : list (sg B)) m,
+  1 <= m ->
+  fst (lib_verify_input_run sv keys sigs m)
+  = spec_input_broadcast sv keys (map (@body B) (lib_roundtrip_sigs m sigs)) m.
+Proof. exact @input_verdict_is_serialised_verdict_thm. Qed.
+
+(* the machine: on a state signed through Transaction.sign, for every single write that is not verification context,
+   verify() of the object is the consensus verdict on its bytes *)
+Theorem probe_object_is_broadcast : forall st a nout es' kinds b v r,
+  is_ctx_attr a = false ->
+  Forall plain_input (cs_ins st) ->
+  run_probe lib_digest_source st a nout es' kinds = ObsBoth b v r ->
+  b = r.
+Proof. exact probe_object_is_broadcast_thm. Qed.
+
+(* non-vacuity, the recorded class object_bytes_out_of_sync (witness list / signature list written by hand), and the
+   seeded change C02-p in the vocabulary of this model: a digest that takes the version from version_int *)
+Example object_bytes_out_of_sync_refuted :
+  let st := {| cs_ins := fst (lib_sign_tx (fun _ => c_mk 0) None [init_input true [0%Z] 1] false true [0%Z]);
+               cs_epochs := [0%Z] |} in
+  Forall plain_input (cs_ins st) /\
+  run_probe lib_digest_source st AVersion 2 [7%Z] [3%Z] = ObsBoth false [Some false] false /\
+  run_probe lib_digest_source st AVersionInt 2 [7%Z] [3%Z] = ObsBoth true [Some true] true /\
+  run_probe lib_digest_source st (AInValue 0) 2 [7%Z] [3%Z] = ObsBoth false [Some false] false /\
+  run_probe lib_digest_source st AOther 2 [7%Z] [3%Z] = ObsBoth true [Some true] true /\
+  run_probe lib_digest_source st (AWitnesses 0) 2 [7%Z] [3%Z] = ObsBoth true [Some true] false /\
+  run_probe lib_digest_source st (ASignatures 0 []) 2 [7%Z] [3%Z] = ObsBoth false [Some false] true /\
+  run_probe alt_digest_source_version_int st AVersion 2 [7%Z] [3%Z] = ObsBoth true [Some true] false /\
+  run_probe alt_digest_source_version_int st AVersionInt 2 [7%Z] [3%Z] = ObsBoth false [Some false] true.
+Proof.
+  split; [|exact probe_examples].
+  vm_compute. repeat constructor.
+Qed.
+
+
 Print Assumptions verify_sound.
 Print Assumptions verify_sound_positions.
 Print Assumptions verify_insufficient.
@@ -530,3 +702,20 @@ Print Assumptions verify_uses_signature_hash_type.
 Print Assumptions signature_for_other_hash_type_fails.
 Print Assumptions unrepaired_segwit_ignores_hash_type.
 Print Assumptions hash_type_changes_digest.
+Print Assumptions tree_threshold_reader_known.
+Print Assumptions parsed_threshold_is_script_threshold.
+Print Assumptions parsed_threshold_reads_first_item.
+Print Assumptions parsed_threshold_repaired.
+Print Assumptions parsed_threshold_unrepaired_above_16.
+Print Assumptions lib_ms_script_is_spec.
+Print Assumptions parsed_threshold_machine.
+Print Assumptions parsed_input_needs_m_signatures.
+Print Assumptions parsed_input_complete.
+Print Assumptions digest_reads_serialised_copy.
+Print Assumptions tree_digest_reads_serialised_attributes.
+Print Assumptions tree_shadow_copies_unread.
+Print Assumptions tree_verify_reads_frozen.
+Print Assumptions write_seen_iff_serialised.
+Print Assumptions shadow_write_unseen.
+Print Assumptions input_verdict_is_serialised_verdict.
+Print Assumptions probe_object_is_broadcast.
